@@ -45,6 +45,7 @@ var c10GroupByCfgs = []c10GroupByCfg{
 	{dims: []interface{}{}, listed: nil},
 	{dims: []interface{}{&ast.StarNode{}}, star: true},
 	{dims: []interface{}{&ast.StarNode{}}, star: true, exclude: []string{"t"}},
+	{dims: []interface{}{&ast.StarNode{}}, star: true, exclude: []string{"u", "t"}}, // exclude list in script order, not sorted
 	{dims: []interface{}{"x", "t"}, listed: []string{"t", "x"}},
 }
 
